@@ -60,7 +60,7 @@ def run_seed(sid, props):
 
 def main():
     args = [a for a in sys.argv[1:] if not a.startswith("--")]
-    seeds = args or sorted(x for x in os.listdir(os.path.join(VERIF, DIR)) if os.path.isdir(os.path.join(VERIF, DIR, x)))
+    seeds = args or sorted(x for x in os.listdir(os.path.join(VERIF, DIR)) if os.path.exists(os.path.join(VERIF, DIR, x, "patch.diff")))
     for sid in seeds:
         meta_p = os.path.join(VERIF, DIR, sid, "meta.json")
         meta = json.load(open(meta_p)) if os.path.exists(meta_p) else {}
